@@ -755,8 +755,11 @@ impl<'a> Gen<'a> {
                         self.push("array_join", vec![h, Arg::Lit(sep.to_string())]);
                     }
                 } else {
-                    let sep = *self.rng.pick(&[",", ", ", "", "-", "ü", " "]);
-                    self.push("array_join", vec![h, Arg::Lit(sep.to_string())]);
+                    // mostly plain separators; one in five from the odd pool (a separator outside
+                    // the C09-safe class is re-read as script text by the body's `if not is_empty
+                    // <separator>`: recorded finding C12-array-join-separator-reread)
+                    let sep = if self.rng.chance(1, 5) { self.rng.pick_s(&ODD_VALUES).to_string() } else { self.rng.pick(&[",", ", ", "", "-", "ü", " "]).to_string() };
+                    self.push("array_join", vec![h, Arg::Lit(sep)]);
                 }
             }
             37 if self.with_scripts => {
@@ -1344,6 +1347,11 @@ impl Prop for C12Prop {
         gen_history(rng, tier)
     }
     fn run_impl(&self, req: &str, _m: &str) -> String {
+        // (srun: the model could not translate its allocation numbering into first-appearance
+        // numbering because a handle occurrence inside a text has two readings: no verdict)
+        if _m == "AMBIGUOUS-HANDLE-TEXT" {
+            return _m.to_string();
+        }
         run_history(&dec_ops(req))
     }
     fn known(&self, req: &str, model: &str, imp: &str) -> Option<String> {
@@ -1355,6 +1363,20 @@ impl Prop for C12Prop {
         let mouts: Vec<&str> = model.split(' ').next().unwrap_or("").split(',').collect();
         // the FIRST operation whose output leaves the model decides: it must be that array_concat
         let first_diff = (0..ops.len()).find(|&k| outs.get(k) != mouts.get(k));
+        // finding C12-array-join-separator-reread: the FIRST operation that leaves the reference is
+        // an array_join whose separator is outside the C09-safe class (the source-run model, stream
+        // `srun`, predicts the code's answer for every separator: a different failure shows there)
+        if req.starts_with("coll ") {
+            if let Some(k) = first_diff {
+                if ops[k].cmd == "array_join" {
+                    if let Some(Arg::Lit(sep)) = ops[k].args.get(1) {
+                        if !crate::props::c09::in_domain(&[sep.clone()]) {
+                            return Some("C12-array-join-separator-reread".to_string());
+                        }
+                    }
+                }
+            }
+        }
         let mut failed_before = false;
         for (k, o) in ops.iter().enumerate() {
             if o.cmd == "array_concat" {
